@@ -40,6 +40,7 @@ def run(ctx):
     ctx.step(drain, ctx)
     ctx.step(shared, ctx)
     ctx.step(capture, ctx)
+    ctx.step(owned_functor, ctx)
     ctx.step(exception_identity, ctx, "C06.exc")
     ctx.step(common.raii_only, ctx, "C06.raii", ["deferred_guarded.hpp"], floor=20)
     ctx.step(common.witnesses, ctx, "C06.witness", ["C06"])
@@ -321,6 +322,37 @@ def shared(ctx):
         ctx.ob(rid, ok, f.where, "load goes through lock_shared (and therefore through the drain)", "", fn=f.label, inst=f.qname)
     if n == 0:
         ctx.broken("no shared acquisition method of deferred_guarded instantiated")
+
+
+def owned_functor(ctx, rid="C06.capture"):
+    """a queued task outlives the call that queued it: it must OWN its function object - no std::ref / std::cref to
+    the (by-value) parameter, no lambda capturing a local or parameter by reference"""
+    n = 0
+    for nm in ("modify_detach", "modify_async"):
+        for f in fns(ctx, nm):
+            n += 1
+            bad = None
+            for st in f.stmts.values():
+                if st["k"] == "CallExpr" and callee_fq(st) in ("std::ref", "std::cref"):
+                    bad = (st, "%s(...) hands the task a reference to an object that dies when %s returns" % (callee_fq(st), nm))
+                if st["k"] == "LambdaExpr":
+                    for c in st.get("caps", []):
+                        v = c.get("var") or {}
+                        if c.get("by") == "ref" and v.get("k") in ("local", "param"):
+                            # only when the closure is what gets queued / packaged
+                            par = f.par(st)
+                            while par is not None and par["k"] in ("ImplicitCastExpr", "MaterializeTemporaryExpr", "CXXBindTemporaryExpr",
+                                                                   "ExprWithCleanups", "CXXFunctionalCastExpr", "CXXConstructExpr"):
+                                if par["k"] == "CXXConstructExpr" and "packaged_task" in par.get("t", ""):
+                                    break
+                                par = f.par(par)
+                            if par is not None and (par["k"] in ("CXXNewExpr",) or "packaged_task" in par.get("t", "") or
+                                                    (par["k"] == "CallExpr" and "package_task" in callee_fq(par))):
+                                bad = (st, "the queued closure captures '%s' by reference" % v.get("name"))
+            ctx.ob(rid, bad is None, f.loc(bad[0]) if bad else f.where, "%s queues a task that owns its function object" % nm,
+                   "" if bad is None else bad[1] + ": the drainer later calls a destroyed object", fn=f.label, inst=f.qname)
+    if n == 0:
+        ctx.broken("modify_detach / modify_async not instantiated")
 
 
 def exception_identity(ctx, rid):
